@@ -11,7 +11,11 @@ Model driver for C16. Line protocol (fields separated by one space; "-" = empty 
     -> "img=<estimateDockerImageSize> scratch=<EstimateScratchSpace>"
   rq <quota>:<cancreate> <types> <ents>
       types = idle:booting:mode , ...   (index = type id; mode = i|f|s|x)
-      ents  = uuid:prio:state:type:flags , ...   (state = Q|L|O; flags ⊆ {r,k} or "-")
+      ents  = uuid:prio:state:type:flags , ...   (state = Q|L|O; flags ⊆ {r,k,o,c} or "-":
+              r in pool.Running(), k KillContainer answers true, o another operation on the uuid is in
+              progress (uuidLock fails), c the queue's state became Locked right after the snapshot)
+  rqp <quota>:<cancreate> <types> <ents>
+      the same pass against the real worker.Pool (quota ∈ {0,99}, modes i only, no k flag, types known)
     -> the allowed set of call traces joined by "|" (one per outcome of the unstable priority sort)
        trace = ev,ev,...;L=<sorted uuids handed to lockContainer>
 -/
@@ -110,7 +114,12 @@ def parsePoolType? (s : String) : Option (Nat × Nat × StartMode) :=
     pure (i, b, m)
   | _ => none
 
-def parseEnt? (s : String) : Option (Ent × Bool) :=
+structure EntFlags where
+  linger : Bool
+  opInProgress : Bool
+  changed : Bool
+
+def parseEnt? (s : String) : Option (Ent × EntFlags) :=
   match s.splitOn ":" with
   | [u, p, st, ty, fl] => do
     let u ← u.toNat?
@@ -118,8 +127,9 @@ def parseEnt? (s : String) : Option (Ent × Bool) :=
     let st ← (if st == "Q" then some CState.queued else if st == "L" then some CState.locked
               else if st == "O" then some CState.other else none)
     let ty ← ty.toNat?
-    if fl != "-" && !(fl.toList.all (fun c => c == 'r' || c == 'k')) then none
-    pure ({ uuid := u, prio := p, st := st, ty := ty, running := fl.toList.contains 'r' }, fl.toList.contains 'k')
+    if fl != "-" && !(fl.toList.all (fun c => c == 'r' || c == 'k' || c == 'o' || c == 'c')) then none
+    pure ({ uuid := u, prio := p, st := st, ty := ty, running := fl.toList.contains 'r' },
+          { linger := fl.toList.contains 'k', opInProgress := fl.toList.contains 'o', changed := fl.toList.contains 'c' })
   | _ => none
 
 def insertAll {α : Type} (x : α) : List α → List (List α)
@@ -154,12 +164,12 @@ def showEv : Ev → Option String
   | .start t u r => some s!"s{t}.{u}={b01 r}"
   | .shutdown t => some s!"d{t}"
 
-def showTrace (tr : List Ev) : String :=
+def showTrace (op : Nat → Bool) (cur : Nat → Option CState) (tr : List Ev) : String :=
   let evs := tr.filterMap showEv
-  let locks := tr.filterMap (fun e => match e with | .lockgo u => some u | _ => none)
+  let locks := lockCalls op cur tr
   (if evs.isEmpty then "-" else ",".intercalate evs) ++ ";L=" ++ (if locks.isEmpty then "-" else joinNames locks)
 
-def stepRQ (pool types ents : String) : String :=
+def stepRQ (real : Bool) (pool types ents : String) : String :=
   let r := do
     let (q, cc) ← (match pool.splitOn ":" with
       | [q, cc] => do
@@ -177,7 +187,16 @@ def stepRQ (pool types ents : String) : String :=
     -- uuids are map keys in the implementation: a snapshot with a repeated uuid is ill-formed
     if (ents.map (·.uuid)).eraseDups.length != ents.length then "bad-op" else
     let tsa := ts.toArray
-    let lingering := fun (u : Nat) => es.any (fun p => p.1.uuid == u && p.2)
+    -- "rqp" runs the real worker.Pool: its AtQuota is a time window (quota 0 or never), StartContainer
+    -- succeeds iff an idle worker exists, KillContainer is true only for containers in Running()
+    if real && (!(q == 0 || q == 99) || ts.any (fun t => t.2.2 != .byIdle) || es.any (fun p => p.2.linger)
+                || ents.any (fun e => e.ty ≥ ts.length)) then "bad-op" else
+    let lingering := fun (u : Nat) => es.any (fun p => p.1.uuid == u && p.2.linger)
+    let op := fun (u : Nat) => es.any (fun p => p.1.uuid == u && p.2.opInProgress)
+    -- the queue's cached state when the lockContainer goroutines run: the snapshot state, except that
+    -- flag 'c' turned Queued into Locked right after the snapshot was taken
+    let cur := fun (u : Nat) => (es.find? (fun p => p.1.uuid == u)).map
+      (fun p => if p.2.changed && p.1.st == .queued then CState.locked else p.1.st)
     let stub : Stub :=
       { quota := q, canCreate := cc, created := 0, starts := fun _ => 0
         idle := fun t => match tsa[t]? with | some (i, _, _) => i | none => 0
@@ -185,14 +204,15 @@ def stepRQ (pool types ents : String) : String :=
         lingering := lingering }
     let unalloc : Nat → Int := fun t => match tsa[t]? with | some (i, b, _) => (i + b : Nat) | none => 0
     let keys := List.range ts.length
-    let traces := (allSorted ents).map (fun sorted => showTrace (runQueue stubPool stub unalloc keys sorted))
+    let traces := (allSorted ents).map (fun sorted => showTrace op cur (runQueue stubPool stub unalloc keys sorted))
     "|".intercalate traces.eraseDups
 
 def step (line : String) : String :=
   match fields line with
   | ["choose", reserve, types, ctr, image, mounts] => stepChoose reserve types ctr image mounts
   | ["arith", image, mounts] => stepArith image mounts
-  | ["rq", pool, types, ents] => stepRQ pool types ents
+  | ["rq", pool, types, ents] => stepRQ false pool types ents
+  | ["rqp", pool, types, ents] => stepRQ true pool types ents
   | _ => "bad-op"
 
 def main : IO Unit := lineLoop step
